@@ -115,6 +115,20 @@ def run(P, rep, tier):
     # ---------------- PADFIRST
     pa = P.fn('picture_analysis_kernel')
     pads = [ev for ev, n in pa.calls('pad_input_pictures')]
+    pic_arg = 1
+    if not pads:
+        # the regeneration may sit behind a helper: a callee that hands one of its own parameters to pad_input_pictures
+        for ev, n in pa.calls():
+            for g in (P.resolve(n, pa) if n else []):
+                if g.nocfg:
+                    continue
+                for cev, n2 in g.calls('pad_input_pictures'):
+                    a = strip(cev['e'][2][1]) if len(cev['e'][2]) > 1 else None
+                    if a is not None and a[0] == 'v' and a[2].startswith('p') and a[2][1:].isdigit() and int(a[2][1:]) < len(ev['e'][2]) and not g.ctl_chain(cev):
+                        pads = [ev]
+                        pic_arg = int(a[2][1:])
+            if pads:
+                break
     if not pads:
         # the mechanism itself is gone: that is the violation (the thread function still exists, so this is not a moved anchor)
         rep.ob('C21.PADFIRST', 'pad-call-present', False, pa.loc(),
@@ -122,7 +136,7 @@ def run(P, rep, tier):
         rep.floor('C21.PADFIRST', 1)
         return
     pad = pads[0]
-    pic = pstr(strip(pad['e'][2][1]))
+    pic = pstr(strip(pad['e'][2][pic_arg]))
     # the picture control set the picture was taken from
     pcs = None
     for ev in pa.events(('st', 'decl')):
@@ -147,7 +161,7 @@ def run(P, rep, tier):
             rep.ob('C21.PADFIRST', 'consumer:%s#%d' % (name or 'indirect', n), ok, pa.loc(ev),
                    '%s(%s) is %sdominated by pad_input_pictures(.., %s)' % (name, ', '.join(args)[:60], '' if ok else 'NOT ', pic))
     # the padding really writes the borders from the visible area: it is called with the sequence settings and the picture
-    rep.ob('C21.PADFIRST', 'pad-call-shape', len(pad['e'][2]) == 2, pa.loc(pad), 'pad_input_pictures(scs, picture)')
+    rep.ob('C21.PADFIRST', 'pad-call-shape', len(pad['e'][2]) >= 2, pa.loc(pad), 'border regeneration is handed the sequence settings and the picture')
     # the overlay picture is a second copy of caller data (made in resource coordination from the alt-ref input, before either has
     # been through picture analysis); its borders are regenerated by perform_simple_picture_analysis_for_overlay
     ov = P.fn('perform_simple_picture_analysis_for_overlay')
